@@ -232,6 +232,38 @@ def OhState.plot (s : OhState α) (ds : List α) (axRaises : Bool) : OhState α 
   let during : OhState α := { s with small := (plotFlags s.small s.shadow).1, shadow := (plotFlags s.small s.shadow).2 }
   ({ during with small := s.small, shadow := s.shadow }, plotOutcome (during.dbArray ds) axRaises)
 
+/-! ## R16 — the caller's side: ONE argument array, refilled in place between calls
+
+`buf` is the array object the caller owns.  The model's queries are functions of the
+*contents* handed over at call time; nothing of the argument is kept by the object
+(`GenState` has no field that could hold it) and answers are values appended to `outs`. -/
+
+inductive CallerOp (α : Type)
+  | refill (vs : List α)   -- `buf[...] = vs`
+  | set (o : FsOp α)       -- a setter call on the object in between
+  | callDb                 -- `obj.calc_path_loss_dB(buf)`
+  | callLin                -- `obj.calc_path_loss(buf)`
+  | callWhich              -- `obj.which_distance_dB(buf)`
+
+structure CallerState (α : Type) where
+  obj : GenState α
+  buf : List α
+  outs : List (Except PyErr (List α))
+
+def callerStep (c : CallerState α) : CallerOp α → CallerState α
+  | .refill vs => { c with buf := vs }
+  | .set o => { c with obj := fsStep c.obj o }
+  | .callDb => { c with outs := c.outs ++ [c.obj.dbArray c.buf] }
+  | .callLin => { c with outs := c.outs ++ [c.obj.linArray c.buf] }
+  | .callWhich => { c with outs := c.outs ++ [.ok (c.obj.whichDbArray c.buf)] }
+
+def callerRun (c : CallerState α) (ops : List (CallerOp α)) : CallerState α := ops.foldl callerStep c
+
+/-- the setter calls contained in a caller history -/
+def CallerOp.setter? : CallerOp α → Option (FsOp α)
+  | .set o => some o
+  | _ => none
+
 /-! ## AntGainBS3GPP25996 -/
 
 structure Ant (α : Type) where
